@@ -37,6 +37,10 @@ ODD_INCLUDES = ["http://[", "http://a b/", "#frag", "x.conf#frag", "file:",
                 "http://sim.test:80/x", "http://sim.test:0/x",
                 "http://sim.test:99999/x", "data:text/plain,k%201", "%41",
                 "data:text/plain;base64,////", "data:,%ff%fe", "data:;base64,gICA",
+                "data:text/plain;charset=x-klingon,k%201",
+                "data:text/plain;charset=hex,k%201",
+                "data:text/plain;charset=utf8mb4,k%201",
+                "data:text/plain;charset=latin-1,k%20%e9",
                 "/proc/self/mem", "file:///proc/self/mem",
                 "file://remotehost/x", "file://localhost/sim/x", ".", "..",
                 "/", "./", "http://sim.test/a\tb", "http://sim.test/x\\y"]
